@@ -173,6 +173,10 @@ struct Table {
     /// upvalues that re-schedules itself, started inside `mk`), the counter read through a getter closure.
     /// Requires: task i's body is exactly one unguarded `ti@(now+p)`, one global `ti@t0` per task, nothing from dsp.
     closure_style: bool,
+    /// `selK(t, v)` is rendered with DEEPER captures (suffix `d` of the task count; same ideal behaviour): even `K` — the scheduled
+    /// closure calls a `let`-bound closure `f` (captured through its cell) which captures `v`; odd `K` — it captures a
+    /// tuple argument `(v, t)`. On WASM the record, the cell, the inner record / the tuple all have to outlive the body.
+    deep: bool,
     ntasks: usize,
     global: Vec<Req>,
     tasks: Vec<Vec<Req>>,
@@ -229,7 +233,7 @@ fn table_to_string(t: &Table) -> String {
         "P\t{}\t{}{}\t{}\t{}\t{}",
         t.ticks,
         t.ntasks,
-        if t.closure_style { "c" } else { "" },
+        if t.closure_style { "c" } else if t.deep { "d" } else { "" },
         reqs_to_string(&t.global),
         t.tasks.iter().map(|v| reqs_to_string(v)).collect::<Vec<_>>().join(";"),
         reqs_to_string(&t.dsp)
@@ -240,7 +244,8 @@ fn parse_table(f: &[&str]) -> Table {
     Table {
         ticks: f[1].parse().unwrap(),
         closure_style: f[2].ends_with('c'),
-        ntasks: f[2].trim_end_matches('c').parse().unwrap(),
+        deep: f[2].ends_with('d'),
+        ntasks: f[2].trim_end_matches(['c', 'd']).parse().unwrap(),
         global: parse_reqs(f[3]),
         tasks: f[4].split(';').map(parse_reqs).collect(),
         dsp: parse_reqs(f[5]),
@@ -301,10 +306,18 @@ fn table_to_source(t: &Table) -> String {
         // helper making a closure with one upvalue (defined after tK: no forward references)
         let has_sel = t.global.iter().chain(t.dsp.iter()).chain(t.tasks.iter().flatten()).any(|r| r.upv.is_some() && r.target == i);
         if has_sel {
-            s += &format!(
-                "fn sel{i}(t, v){{\n    (| |{{ if (v > 0.5) {{ t{i}() }} else {{ t{}() }} }})@t\n}}\n",
-                i.saturating_sub(1)
-            );
+            let j = i.saturating_sub(1);
+            if !t.deep {
+                s += &format!("fn sel{i}(t, v){{\n    (| |{{ if (v > 0.5) {{ t{i}() }} else {{ t{j}() }} }})@t\n}}\n");
+            } else if i % 2 == 0 {
+                s += &format!(
+                    "fn sel{i}(t, v){{\n    let f = | |{{ if (v > 0.5) {{ t{i}() }} else {{ t{j}() }} }}\n    (| |{{ f() }})@t\n}}\n"
+                );
+            } else {
+                s += &format!(
+                    "fn pick{i}(p:(float,float)){{\n    (| |{{ if (p.0 > 0.5) {{ t{i}() }} else {{ t{j}() }} }})@(p.1)\n}}\nfn sel{i}(t, v){{\n    pick{i}((v, t))\n}}\n"
+                );
+            }
         }
     }
     for r in &t.global {
@@ -464,6 +477,116 @@ fn ideal_total(t: &Table, cap: u64) -> Option<u64> {
     Some(total)
 }
 
+/// The same count under the OLD memory discipline of the WASM runtime (finding F17, repaired: a pending task ran whatever
+/// function was last written at its closure address). NOT a filter any more: it only tells the Lean driver whether evaluating
+/// the memory model of that discipline (`M.run` / `R.run`, a statistic since the repair) is affordable — under it the task
+/// population of some tables explodes.
+fn wasm_total(t: &Table, cap: u64) -> Option<u64> {
+    use std::cmp::Reverse;
+    use std::collections::{BinaryHeap, HashMap};
+    #[derive(PartialEq, Eq)]
+    struct T(u64, u64); // when, closure address
+    impl PartialOrd for T {
+        fn partial_cmp(&self, o: &Self) -> Option<std::cmp::Ordering> {
+            Some(self.cmp(o))
+        }
+    }
+    impl Ord for T {
+        fn cmp(&self, o: &Self) -> std::cmp::Ordering {
+            self.0.cmp(&o.0)
+        }
+    }
+    /// a memory cell: function word of `tK`, function word of the closure of `selK`, a captured float
+    #[derive(Clone, Copy)]
+    enum W {
+        Fn(usize),
+        Lam(usize),
+        Up(f64),
+    }
+    // writes the record of request `r` at `a`, returns its size in cells
+    let write = |mem: &mut HashMap<u64, W>, a: u64, r: &Req| -> u64 {
+        match r.upv {
+            Some(v) => {
+                mem.insert(a, W::Lam(r.target));
+                mem.insert(a + 1, W::Up(v));
+                2
+            }
+            None => {
+                mem.insert(a, W::Fn(r.target));
+                1
+            }
+        }
+    };
+    let mut heap: BinaryHeap<Reverse<T>> = BinaryHeap::new();
+    let mut mem: HashMap<u64, W> = HashMap::new();
+    let mut total = 0u64;
+    let mut addr = 0u64;
+    for r in &t.global {
+        let w = r.c as u64;
+        if w == 0 {
+            return Some(total);
+        }
+        let n = write(&mut mem, addr, r);
+        heap.push(Reverse(T(w, addr)));
+        addr += n;
+    }
+    let base = addr;
+    for now in 0..t.ticks {
+        let mut due = vec![];
+        while let Some(Reverse(x)) = heap.peek() {
+            if x.0 <= now {
+                due.push(heap.pop().unwrap().0);
+            } else {
+                break;
+            }
+        }
+        let run = |body: &Vec<Req>, heap: &mut BinaryHeap<Reverse<T>>, mem: &mut HashMap<u64, W>| -> bool {
+            let mut j = 0;
+            for r in body {
+                if r.guard.map_or(true, |g| now < g) {
+                    let w = (if r.abs { r.c } else { now as f64 + r.c }) as u64;
+                    if w <= now {
+                        return false; // rejected by the host call: the run ends here
+                    }
+                    let n = write(mem, base + j, r);
+                    heap.push(Reverse(T(w, base + j)));
+                    j += n;
+                }
+            }
+            true
+        };
+        for x in due {
+            let f = match mem.get(&x.1).copied().unwrap_or(W::Fn(0)) {
+                W::Fn(k) => k,
+                W::Lam(k) => match mem.get(&(x.1 + 1)).copied().unwrap_or(W::Fn(0)) {
+                    W::Up(v) if v > 0.5 => k,
+                    _ => k.saturating_sub(1), // a function word read as a float is a denormal
+                },
+                W::Up(_) => continue, // a captured float read as a function index: `call_indirect` traps, task dropped
+            };
+            total += 1;
+            if total > cap {
+                return None;
+            }
+            if !run(&t.tasks[f], &mut heap, &mut mem) {
+                return Some(total);
+            }
+        }
+        if !run(&t.dsp, &mut heap, &mut mem) {
+            return Some(total);
+        }
+        if heap.len() as u64 > cap {
+            return None;
+        }
+    }
+    Some(total)
+}
+
+/// 9th field of a `P` line: `m` = the driver may evaluate the memory model of the old discipline on this table, `-` = too costly
+fn old_discipline_flag(t: &Table) -> &'static str {
+    if wasm_total(t, WEIGHT - 1).is_some() { "m" } else { "-" }
+}
+
 /// captured floats of `selK(t, v)` requests; the low 32 bits of 1.0 and 0.0 are 0, a valid function-table index (under the
 /// old bump discipline of finding F17 such a word, read as a function word, re-ran the global initialiser)
 const UPVS: [f64; 6] = [0.7, 0.3, 0.9, 0.1, 1.0, 0.0];
@@ -502,7 +625,7 @@ fn gen_table(rng: &mut Rng, ticks: u64) -> Table {
             global.push(Req { abs: true, c: t0, target: i, guard: None, lambda: false, upv: None });
             tasks.push(vec![Req { abs: false, c: p, target: i, guard: None, lambda: false, upv: None }]);
         }
-        return Table { ticks, closure_style: true, ntasks: n, global, tasks, dsp: vec![] };
+        return Table { ticks, closure_style: true, deep: false, ntasks: n, global, tasks, dsp: vec![] };
     }
     loop {
         let ntasks = 1 + rng.below(4) as usize;
@@ -553,7 +676,7 @@ fn gen_table(rng: &mut Rng, ticks: u64) -> Table {
             let abs = rng.chance(1, 10);
             dsp.push(gen_req(rng, ntasks, ticks, abs, b, false, if upv { ntasks } else { 0 }));
         }
-        let t = Table { ticks, closure_style: false, ntasks, global, tasks, dsp };
+        let t = Table { ticks, closure_style: false, deep: upv && rng.chance(1, 2), ntasks, global, tasks, dsp };
         if ideal_total(&t, WEIGHT - 1).is_some() {
             return t;
         }
@@ -596,7 +719,7 @@ fn main() {
             for _ in 0..n {
                 let t = gen_table(&mut rng, ticks);
                 let src = table_to_source(&t);
-                writeln!(out, "{}\t{}\t{}", table_to_string(&t), run_vm(&src, ticks), run_wasm(&src, ticks)).unwrap();
+                writeln!(out, "{}\t{}\t{}\t{}", table_to_string(&t), run_vm(&src, ticks), run_wasm(&src, ticks), old_discipline_flag(&t)).unwrap();
             }
         }
         "prog-lines" => {
@@ -612,7 +735,7 @@ fn main() {
                 if show {
                     eprintln!("{src}");
                 }
-                writeln!(out, "{}\t{}\t{}", table_to_string(&t), run_vm(&src, t.ticks), run_wasm(&src, t.ticks)).unwrap();
+                writeln!(out, "{}\t{}\t{}\t{}", table_to_string(&t), run_vm(&src, t.ticks), run_wasm(&src, t.ticks), old_discipline_flag(&t)).unwrap();
             }
         }
         "src" => {
